@@ -1,4 +1,5 @@
 \* C05: model checking of the derived quantities and of every defect injection on every document of the universe
+\* measured: thorough universe: 42 580 documents and every injection of each; 2 244 712 states; largest intermediate value < 2^31 by CMAX = 64, RES = 128 (see Fpef.tla, Derive)
 SPECIFICATION Spec
 CONSTANTS
   UNIVERSE = "thorough"
